@@ -196,6 +196,18 @@ def check(ctx, build=None):
                 b = loose[0]
                 viol("C02: goose translates a conversion as the identity where the model of the translator (proved faithful) rejects it or applies an operation",
                      {"proto": "c02-conv", "conversion": b["conversion"], "to": b["to"], "from": b["from"], "spelling": b["spelling"]}, {"model_decision": b["model"]}, {"goose": b["goose"]})
+        # ---- the model of package-level variables against the real translator: goose refuses a global exactly when Model.Global.holdsReference
+        #      holds for its type, and a function reading an accepted global returns what Go returns
+        import globalcorr
+        gst, gbad = globalcorr.run(ctx.seed, 40 if ctx.tier == "quick" else 200, scratch)
+        for k, v in gst.items():
+            stats[k] += v
+        if gbad:
+            build.broken.append({"kind": "correspondence", "name": "global: Model.Global.holdsReference vs the package-level variables goose accepts", "detail": json.dumps(gbad[:6])[:2500]})
+            gsem = [b for b in gbad if b["kind"] == "semantics"]
+            if gsem:
+                viol("C02: goose accepts a package-level variable and a function reading it does not return what Go returns",
+                     {"proto": "c02-global", "type": gsem[0]["type"]}, {"go": gsem[0]["go"]}, {"gooselang": gsem[0]["gooselang"]})
         # ---- subset programs with one catalogue statement spliced in at a random position
         import c02splice
         for res in c02splice.run(ctx, scratch, known):
